@@ -75,7 +75,7 @@ def gen(seed, idx, tier):
         screening=screening,
         steps=(3, 20) if not screening else (2, 5),
         dt_choices=[1e-3, 0.01, 0.02],
-        field_kinds=("const", "const", "ramp", "pw", "zero", "loop"),
+        field_kinds=("const", "const", "ramp", "pw", "zero", "loop", "wave"),
         eps_kinds=("none", "none", "spatial"),
         n_terminals=rnd.choice([0, 2, 2, 3]),
         n_probes=2,
